@@ -4,7 +4,7 @@
    All comparisons are on exact rationals: "on the threshold" is == in Q. *)
 From Coq Require Import ZArith QArith List Bool Arith Permutation.
 From VL Require Import Prelude.PyDict Model.GetNBest Model.QuotaDistributor Model.Threshold
-     Proofs.GetNBest_proofs Proofs.Threshold_proofs.
+     Proofs.GetNBest_proofs Proofs.Threshold_proofs Proofs.TieBreak2_proofs.
 Import ListNotations.
 Close Scope Q_scope.
 
@@ -79,6 +79,73 @@ Theorem C16_bracketer : forall evals default bracket votes c,
     end.
 Proof. exact bracket_eval_spec. Qed.
 
+(* ---------------------------------------------------------------- ListOrderTieBreaker: Tie.break_by_list
+   [wf_sel lst el]: every tie in the selection is non-empty, duplicate-free and inside the breaker list
+   (a frozenset of list members).  [replaces (Cand c) x] is x = c, [replaces (TieR t) x] is In x t;
+   [occ_before el i t] counts the earlier entries that are the same tie (as a set). *)
+
+(* the defining clause: same length, plain entries untouched, every tie entry replaced by a member of
+   that tie, the k-th occurrence (k from 0) receiving member k (mod the size) in breaker order.
+   The side condition excludes only a one-member tie listed twice (see C16_break_by_list_index_error). *)
+Theorem C16_break_by_list : forall lst el,
+  wf_sel lst el ->
+  (forall t, In (TieR t) el -> length t = 1%nat -> (tcount (ties_of el) t <= 1)%nat) ->
+  exists r, break_by_list el lst [] [] = BL_ok r /\
+    length r = length el /\
+    Forall2 replaces el r /\
+    (forall i c, nth_error el i = Some (Cand c) -> nth_error r i = Some c) /\
+    (forall i t, nth_error el i = Some (TieR t) ->
+       nth_error r i = Some (nth (occ_before el i t mod length t) (sort_by_list lst t) 1%positive)).
+Proof. exact break_by_list_defining. Qed.
+
+(* "in the order of the breaker list": sorted(tie, key=breaker.index) is the breaker list filtered to the tie *)
+Theorem C16_breaker_order : forall lst t, NoDup lst -> NoDup t -> incl t lst ->
+  sort_by_list lst t = filter (fun c => cmem c t) lst.
+Proof. exact sort_by_list_closed. Qed.
+
+(* well-shaped selections (each tie listed at most as many times as it has members, plain entries
+   distinct and outside the ties, different ties disjoint): distinct entries, no wrap-around *)
+Theorem C16_break_by_list_distinct : forall lst el, NoDup lst -> wf_sel lst el -> shaped el ->
+  exists r, break_by_list el lst [] [] = BL_ok r /\ NoDup r /\ length r = length el /\
+    (forall i c, nth_error el i = Some (Cand c) -> nth_error r i = Some c) /\
+    (forall i t, nth_error el i = Some (TieR t) ->
+       (occ_before el i t < length t)%nat /\
+       nth_error r i = Some (nth (occ_before el i t) (filter (fun c => cmem c t) lst) 1%positive)).
+Proof. exact break_by_list_distinct. Qed.
+
+(* exact behaviour outside well-shaped selections.  (a) IndexError exactly when a one-member tie is
+   listed twice (ties[item] = sorted_item[1:] stores an empty list, the next ties[item][0] fails) *)
+Theorem C16_break_by_list_index_error : forall lst el, wf_sel lst el ->
+  (break_by_list el lst [] [] = BL_index <->
+   exists t, In (TieR t) el /\ length t = 1%nat /\ (2 <= tcount (ties_of el) t)%nat).
+Proof. exact break_by_list_index_error. Qed.
+(* (b) a tie of m >= 2 members listed more than m times starts over: the result repeats a candidate
+   (the "mod length t" of C16_break_by_list); both replayed on the implementation (corpus/C16/break-by-list-*.json) *)
+Example C16_break_by_list_wraps :
+  break_by_list [TieR [1; 2]; TieR [1; 2]; TieR [1; 2]]%positive [2; 1]%positive [] [] = BL_ok [2; 1; 2]%positive /\
+  break_by_list [TieR [1]; TieR [1]]%positive [2; 1]%positive [] [] = BL_index.
+Proof. split; vm_compute; reflexivity. Qed.
+
+(* non-vacuity of the hypotheses: get_n_best's [A, Tie{B,C}, Tie{B,C}] against the list C, A, B *)
+Example C16_break_by_list_example :
+  let el := [Cand 4; TieR [1; 2]; TieR [1; 2]]%positive in let lst := [2; 4; 1]%positive in
+  wf_sel lst el /\ shaped el /\ NoDup lst /\ break_by_list el lst [] [] = BL_ok [4; 2; 1]%positive.
+Proof.
+  cbv zeta. split; [|split; [|split]].
+  - intros t [H|[H|[H|[]]]]; inversion H; subst; (split; [discriminate|split]).
+    + repeat constructor; simpl; intuition discriminate.
+    + intros c [<-|[<-|[]]]; simpl; auto.
+    + repeat constructor; simpl; intuition discriminate.
+    + intros c [<-|[<-|[]]]; simpl; auto.
+  - constructor.
+    + intros t [H|[H|[H|[]]]]; inversion H; subst; vm_compute; auto.
+    + simpl. repeat constructor. simpl. tauto.
+    + intros c t [H|[H|[H|[]]]]; inversion H; subst. intros [H'|[H'|[H'|[]]]]; inversion H'; subst; simpl; intuition discriminate.
+    + intros t t' [H|[H|[H|[]]]] [H'|[H'|[H'|[]]]]; inversion H; inversion H'; subst; left; apply seq_refl.
+  - repeat constructor; simpl; intuition discriminate.
+  - vm_compute. reflexivity.
+Qed.
+
 (* non-vacuity: 5 of 100 at 5 % with accept_equal passes; without it does not *)
 Example C16_example_on_threshold :
   sel_eval (SRel (1#20) true) [(1%positive, 5#1); (2%positive, 95#1)]%Q = [2%positive; 1%positive] /\
@@ -94,3 +161,7 @@ Print Assumptions C16_openlist_structure.
 Print Assumptions C16_no_leapfrog.
 Print Assumptions C16_fill.
 Print Assumptions C16_bracketer.
+Print Assumptions C16_break_by_list.
+Print Assumptions C16_breaker_order.
+Print Assumptions C16_break_by_list_distinct.
+Print Assumptions C16_break_by_list_index_error.
